@@ -15,8 +15,8 @@ LEVEL = 'exploration'
 RULE = ('pool of 20 texts chosen to leave lexer/ply state dirty (valid programs, unterminated string, mismatched ")", '
         'open "if(" header, text ending inside a regex, text ending right after an inserted semicolon, comments, '
         'CRLF, texts that begin with a regex literal and texts that end on a division-implying token without a semicolon, a function-expression statement (ProductionError path), regex after "}" (back-tracking path), U+2028) '
-        'x comment-capture flag = 40 calls, plus 8 calls through the calmjs.parse.es5 helper object. The expected outcome of each call - ReprWalker dump with positions plus '
-        'attached comments, or exception type and message - is computed in a fresh interpreter per text. '
+        'x comment-capture flag = 40 calls, plus 8 calls through the calmjs.parse.es5 helper object, plus the deferred arrangement (the Parser object of call A is built, call B runs completely, then the object parses A). The expected outcome of each call - ReprWalker dump with positions plus '
+        'attached comments plus the per-node table of literal-token positions, or exception type and message - is computed in a fresh interpreter per text. '
         '(i) exhaustively all call sequences of length <= 2 (quick) / <= 3 (thorough) in one process, every result '
         'compared with the fresh-process value; (ii) Hypothesis-generated long histories (<= 200 steps) that also '
         'interleave pretty/minify printing and bare Lexer iteration; (iii) thread pools of 2-16 threads parsing the '
@@ -64,30 +64,46 @@ def set_root(root):
 
 OUTCOME_CODE = r'''
 import json, sys
-def outcome(text, wc):
-    from calmjs.parse.parsers.es5 import parse
+def outcome(text, wc, between=None):
+    from calmjs.parse.parsers.es5 import parse, Parser
     from calmjs.parse.walkers import ReprWalker, Walker
     try:
-        t = parse(text, with_comments=wc)
+        if between is None:
+            t = parse(text, with_comments=wc)
+        else:
+            # the parser object is built first, another complete parse runs, then the object is used (once)
+            p = Parser(with_comments=wc)
+            try:
+                parse(between[0], with_comments=between[1])
+            except Exception:
+                pass
+            t = p.parse(text)
     except Exception as e:
         return ['error', type(e).__name__, str(e)]
     dump = ReprWalker().walk(t, pos=True)
     comments = []
+    tokens = []
     for n in [t] + list(Walker().walk(t)):
         cs = getattr(n, 'comments', None)
         if cs is not None:
             for c in cs.children():
                 comments.append([type(n).__name__, c.value, c.lexpos, c.lineno, c.colno])
-    return ['tree', dump, comments]
+        tm = getattr(n, '_token_map', None)
+        if tm:
+            # the positions recorded for the literal tokens of the node (what source maps are built from)
+            tokens.append([type(n).__name__, sorted([k, [list(x) for x in v]] for k, v in tm.items())])
+    return ['tree', dump, comments, tokens]
 '''
 
 
 _ons = {}
 
 
-def outcome(text, wc, via='parse'):
+def outcome(text, wc, via='parse', between=None):
     if 'outcome' not in _ons:
         exec(OUTCOME_CODE, _ons)
+    if via == 'deferred':
+        return _ons['outcome'](text, wc, between)
     if via == 'factory':
         import calmjs.parse
         from calmjs.parse.parsers import es5 as pmod
@@ -149,11 +165,16 @@ def run_history(acc, opens, exp, history, origin):
     prev = None
     interesting = False
     for step, op in enumerate(history):
-        if op[0] in ('parse', 'fparse'):
+        if op[0] in ('parse', 'fparse', 'dparse'):
             i, wc = op[1], op[2]
-            got = outcome(TEXTS[i], wc, 'factory' if op[0] == 'fparse' else 'parse')
+            if op[0] == 'dparse':
+                got = outcome(TEXTS[i], wc, 'deferred', (TEXTS[op[3]], op[4]))
+            else:
+                got = outcome(TEXTS[i], wc, 'factory' if op[0] == 'fparse' else 'parse')
             want = exp[(i, wc)]
-            if prev is not None and prev[0] in ('parse', 'fparse') and (
+            if op[0] == 'dparse' and (op[4] != wc or exp[(op[3], op[4])][0] == 'error'):
+                interesting = True
+            if prev is not None and prev[0] in ('parse', 'fparse', 'dparse') and (
                     exp[(prev[1], prev[2])][0] == 'error' or prev[2] != wc):
                 interesting = True
             if got != want:
@@ -240,12 +261,22 @@ def run_shard(shard):
                 nt = run_history(acc, opens, exp, history, 'sequence')
                 n += 1
                 acc.case(tuple(seq), nt, {'history': history} if n % 97 == 0 else None)
+        # every ordered pair once more with the first call's parser object built before the second call runs
+        for idx, (a, b) in enumerate(itertools.product(range(len(CALLS)), repeat=2)):
+            if idx % shard['of'] != shard['k']:
+                continue
+            history = [['dparse', CALLS[a][0], CALLS[a][1], CALLS[b][0], CALLS[b][1]]]
+            nt = run_history(acc, opens, exp, history, 'deferred_parser')
+            n += 1
+            acc.case(('d', a, b), nt, {'history': history} if n % 97 == 0 else None)
         acc.extra['sequences_enumerated'] = n
     elif shard['kind'] == 'hist':
         op = st.one_of(
             st.tuples(st.just('parse'), st.integers(0, len(TEXTS) - 1), st.booleans()),
             st.tuples(st.just('parse'), st.integers(0, len(TEXTS) - 1), st.booleans()),
             st.tuples(st.just('fparse'), st.sampled_from(VIA_FACTORY), st.booleans()),
+            st.tuples(st.just('dparse'), st.integers(0, len(TEXTS) - 1), st.booleans(),
+                      st.integers(0, len(TEXTS) - 1), st.booleans()),
             st.tuples(st.just('print'), st.integers(0, len(TEXTS) - 1), st.integers(0, 1)),
             st.tuples(st.just('lex'), st.integers(0, len(TEXTS) - 1), st.booleans()),
         ).map(list)
